@@ -155,12 +155,12 @@ CHECKS['C14'] = dict(
    category='exploration',
    text='Proved on the real rexpy.py: PRNGState.__init__ saves the global state and then seeds iff a seed is given (0 included), with that seed; '
         'restore puts the saved state back iff one was saved; Extractor.extract is proved (typestate, every callee abstracted as returning anything or raising, loop cut at an invariant) to save the generator state exactly once, '
-        'restore it exactly once however it ends - normal return, early return, exception - and to draw random samples only in between. The rest is bounded only (labelled): a two-run (hyper)property over the whole pipeline that no per-function contract here carries. Runtime '
+        'restore it exactly once however it ends - normal return, early return, exception - and to draw random samples only in between. Extractor.sample_examples / Extractor.sample are proved, for example stores of any length and every draw of random.sample (assumed contract: n pairwise different positions), to return n strings each paired with its own stored frequency, no stored example twice, from the full example store. The rest is bounded only (labelled): a two-run (hyper)property over the whole pipeline that no per-function contract here carries. Runtime '
         'contracts: same expressions for every permutation (<= 4 examples: all 24), list vs frequency dict, repeated example, repeated '
         'call; with a seed: reproducible, independent of the global PRNG, random.getstate() unchanged - over word multisets x options x '
         'Size settings that force sampling x seeds.',
    note=_REX_NOTE + ' The corresponding bracket inside Extractor.__init__ (first sample) is checked at run time only (random.getstate() before/after).',
-   technique='bounded runtime contracts (relational checks over permutations, input forms and PRNG state)',
+   technique='contract-based deductive verification of the PRNG save/seed/restore bracket and of sampling (ast->z3 VCs on PRNGState, Extractor.extract, sample, sample_examples) + bounded runtime contracts (relational checks over permutations, input forms and PRNG state)',
    design_ref='DESIGN.md 5 C14')
 CHECKS['C18'] = dict(
    category='other',
